@@ -32,7 +32,9 @@
          _clean_up_result_buffer(tmp_result_dir)    # on EVERY path (since the repair of F9: before
                                                     # it, the last step of the success path only)
          _clean_up(tmp_dir); log.info("CLEANING UP"); log.write_log(log_path)
-         output["config"], output["log"], output["metadata"] (, gene_identifier_mapping)
+         output["config"], output["log"], output["metadata"]
+         uns = read_uns_from_h5ad(config["query_path"])      # opens the QUERY file again
+         output["gene_identifier_mapping"] when uns has AIBS_CDM_gene_mapping
          write JSON; blob_to_hdf5 (metadata only unless results and taxonomy_tree present)
 
    EVERY statement of the `finally` block, in order, and whether it can raise
